@@ -141,8 +141,13 @@ def fail_builder(kind, url):
                 % (shlex.quote(msg), shlex.quote('remote: ' + msg))
             return real_subprocess.Popen(script, **kw)
         # hang: the original command line is kept as proc.args, as for a
-        # real hanging git command; the process itself only sleeps
-        p = HangPopen('exec sleep 30', **kw)
+        # real hanging git command; the process prints the credentialed
+        # URL (as git does before it stalls) and then sleeps
+        msg = "fatal: unable to access '%s/': Operation timed out" % url
+        p = HangPopen('printf "%%s\\n" %s; printf "%%s\\n" %s >&2; '
+                      'exec sleep 30' % (shlex.quote(msg),
+                                         shlex.quote('remote: ' + msg)),
+                      **kw)
         p.args = command
         return p
     return build
